@@ -314,7 +314,8 @@ impl<A: Ar> Exec<A> {
             ("C03", _) | ("C08", _) | ("C10", _) | ("C16", _) | ("C20", _) => false,
             ("C13", "release_cursor") | ("C13", "release_effect") | ("C13", "release_amount") | ("C13", "refs") | ("C13", "value_drop") | ("C13", "detached_released") | ("C13", "clone_side_effect") => false,
             ("C04", "error_kind") | ("C04", "error_not_clean") | ("C04", "readonly_alloc") => false,
-            ("C18", "capacity") | ("C18", "refused_fitting") | ("C18", "cow_file_changed") => false,
+            // what a wrong truncate leaves behind (reverted state, changed bytes) is judged by the other properties
+            ("C18", "capacity") | ("C18", "refused_fitting") | ("C18", "cow_file_changed") | ("C18", "state_changed") | ("C18", "bytes_changed") => false,
             // a clear() that leaves something behind: the consequences (stale bytes handed out, a file that does not
             // reopen) belong to other properties and must stay observable
             ("C17", "clear_state") | ("C17", "clear_not_zeroed") => false,
@@ -1333,6 +1334,27 @@ impl<A: Ar> Exec<A> {
         if let Some(c) = asked {
             if a.capacity() != c {
                 self.v("C05", "capacity", format!("reopen (mode {}) with capacity {}: capacity() is {}", mode % 4, c, a.capacity()));
+            }
+        }
+        // C16: capacity() is the number of bytes the session really maps - what was asked for when the file can be
+        // grown (writable and copy-on-write opens), at most what the file holds when it cannot (read-only opens),
+        // the whole file when nothing was asked for
+        {
+            let in_file = (file_len_before as usize).saturating_sub(self.cfg.offset as usize);
+            let larger = (stored_cap + 64 + (self.step as u32 % 3) * 4096) as usize;
+            let want = match (capk % 4, mode % 4 >= 2) {
+                (1, false) => Some(larger),
+                (1, true) => Some(larger.min(in_file)),
+                (2, _) => Some(in_file),
+                _ => None,
+            };
+            if let Some(w) = want {
+                if a.capacity() != w {
+                    self.v("C16", "capacity_after_reopen", format!("reopen (mode {}, capacity {}) of a file holding {} bytes behind the offset: capacity() is {}, expected {}", mode % 4, if capk % 4 == 1 { format!("{}", larger) } else { "absent".into() }, in_file, a.capacity(), w));
+                    // the mapping may not be backed by the file: touching it could kill the process
+                    self.dead = true;
+                    return Obs { result: "crash:capacity".into(), ..Default::default() };
+                }
             }
         }
         self.data_offset = a.data_offset();
